@@ -117,9 +117,35 @@ Definition fee_rule_pinned := fee_rule_with decode_array_header.
 (* <era>.UtxoValidateMaxTxSizeUtxo: uint(len(txBytes)) <= MaxTxSize *)
 Definition max_size_rule (stored : bytes) (maxsz : N) : bool := blen stored <=? maxsz.
 
+(* ---- the transaction as the rules see it -----------------------------------
+   Everything the harness can read off a decoded transaction besides the
+   stored bytes and the fee is recorded too; the rules of this property do not
+   look at any of it (C30_fee_rule_ignores_other_fields). *)
+Record txrec := {
+  t_era : N;
+  t_stored : bytes;                 (* tx.Cbor() *)
+  t_fee : N;                        (* tx.Fee() *)
+  t_is_valid : bool;                (* tx.IsValid() *)
+  t_total_collateral : option N;    (* tx.TotalCollateral(), None = nil *)
+  t_has_collateral_return : bool;   (* tx.CollateralReturn() != nil *)
+  t_donation : option N;            (* tx.Donation() *)
+  t_treasury : option N;            (* tx.CurrentTreasuryValue() *)
+  t_body_keys : list N              (* the keys of the body map, as written *)
+}.
+
+(* what a fee verdict may depend on *)
+Definition fee_verdict (fee size a b : N) : N :=
+  match calculate_min_fee size a b with
+  | None => 2
+  | Some m => if m <=? fee then 0 else 1
+  end.
+
+Definition fee_rule_tx (t : txrec) (a b : N) : N := fee_rule (t_era t) (t_stored t) (t_fee t) a b.
+Definition max_size_rule_tx (t : txrec) (maxsz : N) : bool := max_size_rule (t_stored t) maxsz.
+
 (* ---- correspondence -------------------------------------------------------*)
 Inductive case :=
-| CTx (era : N) (stored : bytes) (fee a b maxsz : N)
+| CTx (t : txrec) (a b maxsz : N)
       (o_size : N) (o_minfee : option N) (o_fee_rule : N) (o_max_ok : bool)
 | CFee (size a b : N) (o : option N)
 | CHdr (d : bytes) (o : option N)        (* StreamDecoder.DecodeArrayHeader *)
@@ -129,11 +155,11 @@ Definition optN_eqb := opt_eqb N.eqb.
 
 Definition check_case (c : case) : bool :=
   match c with
-  | CTx era stored fee a b maxsz o_size o_minfee o_fee o_max =>
-      (tx_size_for_fee era stored =? o_size)
-      && optN_eqb (min_fee_tx era stored a b) o_minfee
-      && (fee_rule era stored fee a b =? o_fee)
-      && Bool.eqb (max_size_rule stored maxsz) o_max
+  | CTx t a b maxsz o_size o_minfee o_fee o_max =>
+      (tx_size_for_fee (t_era t) (t_stored t) =? o_size)
+      && optN_eqb (min_fee_tx (t_era t) (t_stored t) a b) o_minfee
+      && (fee_rule_tx t a b =? o_fee)
+      && Bool.eqb (max_size_rule_tx t maxsz) o_max
   | CFee size a b o => optN_eqb (calculate_min_fee size a b) o
   | CHdr d o => optN_eqb (decode_array_header d) o
   | CLen d o => optN_eqb (list_length d) o
